@@ -10,7 +10,8 @@ package main
 //   - a store carrying an exclusive label ('$'-prefixed key, or the legacy keys "engine" /
 //     "exclusive") can only be selected by a rule that names that label key in its constraints;
 //   - roles: voter matches leader or follower, leader matches the leader, follower a non-leader
-//     voter, learner a learner; every conversion is possible by scheduling except non-learner ->
+//     voter, learner a learner; "learner" means raft role Learner only (core.IsLearner): peers in the
+//     joint-consensus roles IncomingVoter / DemotingVoter are voting members, i.e. voters; every conversion is possible by scheduling except non-learner ->
 //     learner;
 //   - isolation score of a rule: sum over unordered pairs of its peers of 100^(L-i-1), i = first
 //     location-label level at which the two stores differ (nothing when they do not differ);
@@ -204,9 +205,15 @@ func newModel(c *Case) (m *model, skip string) {
 		}
 		seenPeer[p.ID] = true
 	}
+	// Joint-consensus roles: pd's convention (core.IsLearner) is that only PeerRole_Learner is a
+	// learner; IncomingVoter and DemotingVoter are voting members and fit voter / follower / leader
+	// rules like voters. PeerSpec.Learner is false for them, so nothing else changes.
 	for j := range c.Peers {
-		if c.Peers[j].Role != "" {
-			return nil, "joint-consensus-role" // IncomingVoter / DemotingVoter: voter or learner? undocumented
+		if r := c.Peers[j].Role; r != "" && r != "incoming" && r != "demoting" {
+			return nil, "unknown-peer-role"
+		}
+		if c.Peers[j].Role != "" && c.Peers[j].Learner {
+			return nil, "malformed-joint-role-and-learner"
 		}
 	}
 	for j := range c.Peers {
